@@ -126,6 +126,21 @@ def gen_case(rng, tier, idx):
                 v = sval("c")
                 cli += [O[k]["opt"][0], v]
                 cli_kv[O[k].get("dest", k)] = v
+    if rng.random() < 0.15:
+        # the location of the configuration file itself is an option of every layer; the harness always gives it on the command line
+        if rng.random() < 0.7:
+            env_kv["conf"] = "@S@/env_named.conf"
+        if rng.random() < 0.5:
+            file_kv["conf"] = "@S@/file_named.conf"
+    if rng.random() < 0.2:
+        # a network request switched on by a value that is truthy but not the boolean True: the environment turns only
+        # 'true'/'false' into booleans, the file leaves 'diagnosis' (default None) a string
+        for k in rng.sample(["status", "test_connection", "checkin", "unregister", "check_results", "diagnosis", "to_json"], rng.randint(1, 2)):
+            env_kv[k] = rng.choice(["yes", "1", "on", "y"])
+        if rng.random() < 0.3:
+            file_kv["diagnosis"] = "True"
+        if rng.random() < 0.6 and "offline" not in env_kv and "--offline" not in cli:
+            file_kv["offline"] = "True"
     junk = rng.random() < 0.6
     if junk:
         file_kv["no_such_opt"] = "x"
@@ -209,6 +224,7 @@ def run_case(spec, ctx):
         # ---- the model: layered value per option ---------------------------
         L = {}
         src = {}
+        cli_kv = dict(cli_kv, conf=conf)
         for k in O:
             d = O[k]["default"]
             if k in cli_kv:
@@ -291,7 +307,11 @@ def run_case(spec, ctx):
             ctx.violation("option-value-not-from-highest-priority-source", dict(w, option="retries", got=repr(c.retries), expected=repr(L["retries"]), source=src["retries"]))
         if not L["payload"] and c.logging_file != L["logging_file"]:
             ctx.violation("option-value-not-from-highest-priority-source", dict(w, option="logging_file", got=repr(c.logging_file), expected=repr(L["logging_file"]), source=src["logging_file"]))
-        ctx.count("option_values_compared", 3)
+        if "conf" in env_kv or "conf" in file_kv:
+            ctx.count("loads_with_the_file_location_given_in_several_layers")
+        if c.conf != conf:
+            ctx.violation("option-value-not-from-highest-priority-source", dict(w, option="conf", got=repr(c.conf), expected=repr(conf), source="cli"))
+        ctx.count("option_values_compared", 4)
         for k in O:
             if k in SKIP:
                 continue
